@@ -489,6 +489,11 @@ fn small_programs() -> Vec<(Vec<Def>, String)> {
          "sh R2 dt R2 dt R0".to_string()),
         (vec![Def::Sig(1), Def::Sig(1)], format!("ei R0 ei R1 dt R0 {} dt R1", t("in"))),
         (vec![Def::Sig(1), Def::Sig(1)], "el div 3 ay width R0 ay height R1 ac hot R0 ei R1 el b 1 ad title R0 dt R0 u".to_string()),
+        // component-local state: a row-local memo over an outer signal; a Show inside the row over it; bodies in branches
+        (vec![Def::Sig(0), Def::Sig(1)], "el ul 0 forr R0 3 0,1,2 1,2,3 - sc 0 m add R1 K dt V0".to_string()),
+        (vec![Def::Sig(0), Def::Sig(1)], format!("el ul 0 forr R0 3 0,1 0,1,2 2 sc 0 m add R1 K sh V0 sc 1 m mulc 2 R1 dt V0 {}", t("-"))),
+        (vec![Def::Sig(1), Def::Sig(0)], format!("sh R0 sc 0 m add R0 R1 seq dt V0 {} {}", t("."), t("no"))),
+        (vec![Def::Sig(1), Def::Sig(0)], format!("ei R0 sc 0 m R1 sh V0 {} {} {}", t("a"), t("b"), t("no"))),
     ]
 }
 
